@@ -98,7 +98,7 @@ func genArgs(r *rand.Rand, m reflect.Method, name string) ([]string, bool) {
 			case "error":
 				return "!" + []string{"0", "7"}[r.Intn(2)], true
 			case "stackage.Operator":
-				return "O" + []string{"-", "c1", "c0", fmt.Sprintf("u1:%s:%s", hx("~="), hx("approx"))}[r.Intn(4)], true
+				return "O" + []string{"-", "c1", "c0", fmt.Sprintf("u1:%s:%s", hx("~="), hx("approx")), "z", "y"}[r.Intn(6)], true
 			case "stackage.Auxiliary", "stackage.PushPolicy", "stackage.ValidityPolicy", "stackage.PresentationPolicy",
 				"stackage.EqualityPolicy", "stackage.Marshaler", "stackage.Unmarshaler", "stackage.LessFunc", "stackage.Evaluator":
 				return "@" + strconv.Itoa(r.Intn(3)), true
